@@ -1,10 +1,11 @@
 import Driver.C01
+import Driver.Expr
 
 open Drv
 
 def step (line : String) : String :=
   let toks := (line.trimAscii.toString.splitOn " ").filter (· ≠ "")
-  match stepC01 toks with
+  match (stepC01 toks <|> stepExpr toks) with
   | some out => out
   | none => "bad-op"
 
